@@ -1746,6 +1746,8 @@ class Exec:
             st.frames.append(Frame(dict(closure), None, fi, "<closure>"))
             entry.frames.append(Frame(dict(closure), None, fi, "<closure>"))
             def_frame = len(st.frames) - 1
+            # a nested function may call itself: its own name lives in the frame it was defined in
+            st.frames[def_frame].env[fi.node.name] = FuncV(fi=fi, def_frame=def_frame)
         outs = self.run_function(fi, bound, st, cls_ctx=fi.cls, def_frame=def_frame)
         bound.pop("__recv__")
         if closure:
